@@ -69,6 +69,7 @@ class Clause:
         self.desc = desc
         self.props = props
         self.gen_lines = None  # (first, last) in generated file
+        self.assumed = False  # clause of a use-contract stub: assumed in this unit, proved in the unit it comes from
 
 
 LABEL = re.compile(r'^\s*//\s*\[([A-Za-z0-9_.\-]+)\](?:\{([A-Z0-9,\s]+)\})?\s*(.*)$')
@@ -164,6 +165,35 @@ def parse_template(path):
                         k = toks.index('props')
                         props = [t.strip(',') for t in toks[k + 1:] if re.match(r'^C\d+,?$', t)]
                     out.append(('obligation', oid, props, rest[1].strip() if len(rest) > 1 else '', i + 1))
+                elif d == 'include':
+                    ipath = os.path.join(os.path.dirname(path), toks[1])
+                    u2, sub = parse_template(ipath)
+                    for nd in sub:
+                        if nd[0] == 'text':
+                            out.append(('text', nd[1], i + 1))
+                        else:
+                            out.append(nd)
+                elif d == 'use-contract':
+                    # //@ use-contract <template file> :: <alias> [props ...]
+                    k = toks.index('::')
+                    tfile = os.path.join(os.path.dirname(path), toks[1])
+                    alias = toks[k + 1]
+                    u2, sub = parse_template(tfile)
+                    found = None
+                    for nd in sub:
+                        if nd[0] == 'extract':
+                            ex2 = nd[1]
+                            if (ex2.alias or default_alias(ex2.path)) == alias:
+                                found = ex2
+                    if found is None:
+                        raise WeaveError('%s:%d: contract %s not found in %s' % (path, i + 1, alias, toks[1]))
+                    stub = Extract(found.file, found.path, found.alias, None, i + 1)
+                    stub.directives = [d2 for d2 in found.directives if d2[0] in ('result', 'spec', 'sync', 'rename')]
+                    stub.stub_of = u2['name']
+                    if 'props' in toks:
+                        kk = toks.index('props')
+                        stub.props = [p for t in toks[kk + 1:] for p in t.split(',') if p]
+                    out.append(('extract', stub))
                 elif d == 'extract':
                     k = toks.index('::')
                     file = toks[1]
@@ -204,6 +234,16 @@ def parse_template(path):
     if cur is not None:
         raise WeaveError('%s: unterminated extract block (line %d)' % (path, cur.tline))
     return unit, out
+
+
+def default_alias(ipath):
+    parts = [_norm(p) for p in ipath.split('/')]
+    owner = None
+    for p in parts[:-1]:
+        if p.startswith('impl'):
+            owner = re.sub(r'^impl(<[^>]*>)?\s*', '', p).split(' for ')[-1].strip()
+    leaf = parts[-1].split(' ', 1)[-1] if not parts[-1].startswith('impl') else parts[-1]
+    return ('%s::%s' % (owner, leaf)) if owner else leaf
 
 
 def nth_occurrence(hay, needle, n, what):
@@ -385,6 +425,15 @@ def weave_extract(ub, ex, rf, repo_root):
             rec['transformations'].append({'rule': 'E10', 'what': "&str -> &'static str"})
             code = c2
 
+    stub_of = getattr(ex, 'stub_of', None)
+    rec['stub_of'] = stub_of
+    if stub_of:
+        if item.kind != 'fn':
+            raise WeaveError('use-contract on a non-function %s' % alias)
+        mm0 = mask(code)
+        bo = find_fn_body(mm0)
+        code = code[:bo] + '{ unimplemented!() }'
+        rec['transformations'].append({'rule': 'CONTRACT', 'what': 'body not verified here: seen only through the contract proved in unit %s' % stub_of})
     lifted = None
     for d in ex.directives:
         if d[0] == 'lift':
@@ -559,6 +608,8 @@ def weave_extract(ub, ex, rf, repo_root):
             spec_payload = add_canary(spec_payload)
         if spec_payload is not None:
             text, spans, clauses = parse_clauses(spec_payload, owner, props)
+            for c in clauses:
+                c.assumed = bool(stub_of)
             ub.clauses.extend(clauses)
             rec['clauses'].extend(c.id for c in clauses)
             edits.append(Edit(body_open, body_open, '\n' + text + '\n', ('clauses', spans)))
@@ -579,6 +630,8 @@ def weave_extract(ub, ex, rf, repo_root):
         if c.kind == 'impl':
             pre += c.name + ' {\n'
             post = '}\n' + post
+    if stub_of:
+        pre += '#[verifier::external_body]\n'
     for a in attrs:
         pre += a + '\n'
     ub.emit('// ---- extracted: %s :: %s  (lines %d-%d, sha256 %s)' % (
